@@ -1115,9 +1115,11 @@ static JanetSlot janetc_fn(JanetFopts opts, int32_t argn, const Janet *argv) {
     } else {
         for (argi = parami + 1; argi < argn; argi++) {
             subopts.flags = (argi == (argn - 1)) ? JANET_FOPTS_TAIL : JANET_FOPTS_DROP;
-            janetc_value(subopts, argv[argi]);
+            JanetSlot s = janetc_value(subopts, argv[argi]);
             if (c->result.status == JANET_COMPILE_ERROR)
                 goto error2;
+            /* The value of every statement but the last is dropped: release its register */
+            if (argi != argn - 1) janetc_freeslot(c, s);
         }
     }
 
